@@ -8,6 +8,7 @@ import env
 import framework as fw
 import samlbuild as sb
 import sp_common as spc
+import sp_history
 import tlc
 
 
@@ -84,6 +85,8 @@ def main():
                       'thorough replays all 33 024, quick a seeded quarter; non-trivial = the contract demands acceptance or rejection')
     chk.assumptions = ['virtual clock (saml2_tophat.time_util.time/datetime rebound); unsigned responses',
                        'instants exactly on an edge and margins within the allowance are left open']
+    # the same receiver over time: SPHistory.tla
+    sp_history.run(chk, 'C04')
     sb.cleanup()
     return chk.finish()
 
@@ -91,6 +94,8 @@ def main():
 def do_replay(path):
     spc.init_worker()
     j = json.load(open(path))
+    if 'hist' in j['detail']['case']:
+        return sp_history.do_replay(j)
     obs = replay(j['detail']['case'])
     print(json.dumps(dict((k, v) for k, v in obs.items() if k != 'doc'), indent=1))
     return 0
